@@ -404,7 +404,7 @@ pub fn run(args: &RunArgs) -> i32 {
     let cnt = Cnt { cases: AtomicU64::new(0), checked: AtomicU64::new(0), aliases: AtomicU64::new(0), resolvers: AtomicU64::new(0), skipped: Mutex::new(BTreeMap::new()) };
     let distinct = DistinctSet::new();
     let sample: Mutex<Option<J>> = Mutex::new(None);
-    let (dev, budget) = if args.quick() { (2, 50) } else { (3, 2400) };
+    let (dev, budget) = if args.quick() { (3, 50) } else { (4, 3000) };
     let stats = explore(&ExploreCfg { max_dev: dev, threads: args.threads, budget: Duration::from_secs(budget) }, |c: &mut Chooser| {
         let case = gen_case(c);
         let texts: Vec<String> = case.files.iter().map(ts_text).collect();
